@@ -26,6 +26,8 @@ Interesting ==
     \cup {GRnd(i) : i \in 1..24}
 Amounts == {0, 1, 7, 8, 9, 15, 16, 17, 31, 32, 33, 63, 64, 65, MW - 1, MW, MW + 1, 2 * MW} \cap 0..(2 * MW + 1)
 GenPool == [vals |-> Interesting, amounts |-> Amounts]
+PowExps == {0, 1, 2, 3, 4, 5, 7, 8, 15, 16, 31, 32, 33, 63, 64, MW - 1, MW, MW + 1}
+BitIdx == {0, 1, 7, 8, 9, 15, 16, 17, 31, 32, 33, 63, 64, 65, MW - 2, MW - 1} \cap 0..(MW - 1)
 
 Pick(S) == RandomElement(S)
 RegsEnc(rg) == [r \in Regs |-> Enc(T, rg[r])]
@@ -46,12 +48,22 @@ GNext ==
             Load(d, c) /\ hist' = Append(hist, Rec("Load", "load", d, d, d, 0, Enc(T, c)))
        \/ \E m \in {Pick(BinMethods)} : \E d \in {Pick(Regs)} : \E a \in {Pick(Regs)} : \E b \in {Pick(Regs)} :
             Bin(m, d, a, b) /\ hist' = Append(hist, Rec("Bin", m, d, a, b, 0, <<>>))
-       \/ \E m \in {Pick({"op_add", "op_sub", "op_mul", "bitand", "bitor", "bitxor"})} : \E d \in {Pick(Regs)} : \E b \in {Pick(Regs)} :
+       \/ \E m \in {Pick(AssignMethods)} : \E d \in {Pick(Regs)} : \E b \in {Pick(Regs)} :
             Assign(m, d, b) /\ hist' = Append(hist, Rec("Assign", m, d, d, b, 0, <<>>))
        \/ \E m \in {Pick(UnMethods)} : \E d \in {Pick(Regs)} : \E a \in {Pick(Regs)} :
             Un(m, d, a) /\ hist' = Append(hist, Rec("Un", m, d, a, a, 0, <<>>))
        \/ \E m \in {Pick(ShMethods)} : \E d \in {Pick(Regs)} : \E a \in {Pick(Regs)} : \E k \in {Pick(Pool.amounts)} :
             Sh(m, d, a, k) /\ hist' = Append(hist, Rec("Sh", m, d, a, a, k, <<>>))
+       \/ \E m \in {Pick({"op_shl", "op_shr"})} : \E d \in {Pick(Regs)} : \E k \in {Pick(Pool.amounts)} :
+            ShAssign(m, d, k) /\ hist' = Append(hist, Rec("ShAssign", m, d, d, d, k, <<>>))
+       \/ \E m \in {Pick(PowMethods)} : \E d \in {Pick(Regs)} : \E a \in {Pick(Regs)} : \E k \in {Pick(PowExps)} :
+            PowAct(m, d, a, k) /\ hist' = Append(hist, Rec("Pow", m, d, a, a, k, <<>>))
+       \/ \E d \in {Pick(Regs)} : \E i \in {Pick(BitIdx)} : \E v \in {Pick(BOOLEAN)} :
+            SetBitAct(d, i, v) /\ hist' = Append(hist, Rec("SetBit", IF v THEN "set" ELSE "clear", d, d, d, i, <<>>))
+       \/ \E m \in {Pick(RtMethods)} : \E d \in {Pick(Regs)} : \E a \in {Pick(Regs)} : \E k \in {Pick(IF m = "rt_str_radix" THEN 2..36 ELSE 2..256)} :
+            Rt(m, d, a, k) /\ hist' = Append(hist, Rec("Rt", m, d, a, a, k, <<>>))
+       \/ \E m \in {Pick(FoldMethods)} : \E d \in {Pick(Regs)} :
+            FoldAct(m, d) /\ hist' = Append(hist, Rec("Fold", m, d, d, d, 0, <<>>))
 GSpec == GInit /\ [][GNext]_<<mvars, hist>>
 
 \* evaluated in every state of a simulated behaviour; prints the behaviour once it is complete.
